@@ -53,7 +53,7 @@ def check_case(case, counters, sets):
         if key not in seen:
             seen.add(key)
             viols.append({'key': key, 'what': what, 'case': case})
-    if ar.stop in ('iter-cap', 'vt-cap'):
+    if ar.stop in ('iter-cap', 'vt-cap', 'watchdog'):
         return ar, None
     counters['runs_settled'] = counters.get('runs_settled', 0) + 1
     V, C = asyncrun.local_checks(case, ar)
